@@ -382,7 +382,7 @@ class Outcome:
         return 'Outcome(%r, out=%r)' % (self.v, self.out)
 
 
-def mk_unit_job(prelude, units, limits=None, perms=None, dump=None, now=None, per_unit_inst=False):
+def mk_unit_job(prelude, units, limits=None, perms=None, dump=None, now=None, per_unit_inst=False, reset_calls=False):
     """units: list of (name, src) where src declares `name` as a zero-argument function value
     (let name = ()->{...};) or a zero-argument fn; mode 'callv'/'call'/'get' chosen by src prefix."""
     steps = [{'feed': p} for p in prelude]
@@ -390,6 +390,8 @@ def mk_unit_job(prelude, units, limits=None, perms=None, dump=None, now=None, pe
         steps.append({'feed': src})
     steps.append({'op': 'inst'})
     for name, src in units:
+        if reset_calls:
+            steps.append({'op': 'reset_calls'})
         steps.append({'op': unit_mode(src), 'name': name})
     job = {'id': 0, 'limits': limits or {}, 'steps': steps}
     if perms is not None: job['perms'] = perms
@@ -408,7 +410,7 @@ def unit_mode(src):
     return 'get'
 
 
-def run_units(units, prelude=(), limits=None, perms=None, dump=None, now=None, timeout=15.0, _depth=0):
+def run_units(units, prelude=(), limits=None, perms=None, dump=None, now=None, timeout=15.0, _depth=0, reset_calls=False):
     """Execute independent units in one job; isolate crashes by bisection.  Returns one Outcome per unit.
     A unit that fails to compile yields CErr; a compiler panic or a process death yields Panic/Fatal for
     that unit and the remaining units are re-run in a fresh job."""
@@ -416,7 +418,7 @@ def run_units(units, prelude=(), limits=None, perms=None, dump=None, now=None, t
     if not units:
         return []
     prelude = list(prelude)
-    job = mk_unit_job(prelude, units, limits, perms, dump, now)
+    job = mk_unit_job(prelude, units, limits, perms, dump, now, reset_calls=reset_calls)
     rep = run_job(job, timeout)
     n = len(units)
     if 'fatal' in rep:
@@ -434,16 +436,16 @@ def run_units(units, prelude=(), limits=None, perms=None, dump=None, now=None, t
                 if np0 <= at < np0 + n:
                     culprit = at - np0
                 elif at > np0 + n:
-                    culprit = at - (np0 + n + 1)
+                    culprit = (at - (np0 + n + 1)) // (2 if reset_calls else 1)
             if culprit is not None and 0 <= culprit < n:
                 # the step in flight is known: judge that unit alone, run the others without it
-                first = run_units(units[:culprit], prelude, limits, perms, dump, now, timeout, _depth + 1)
-                mid = run_units(units[culprit:culprit + 1], prelude, limits, perms, dump, now, timeout, _depth + 1)
-                rest = run_units(units[culprit + 1:], prelude, limits, perms, dump, now, timeout, _depth + 1)
+                first = run_units(units[:culprit], prelude, limits, perms, dump, now, timeout, _depth + 1, reset_calls)
+                mid = run_units(units[culprit:culprit + 1], prelude, limits, perms, dump, now, timeout, _depth + 1, reset_calls)
+                rest = run_units(units[culprit + 1:], prelude, limits, perms, dump, now, timeout, _depth + 1, reset_calls)
                 return first + mid + rest
             h = n // 2
-            return (run_units(units[:h], prelude, limits, perms, dump, now, timeout, _depth + 1) +
-                    run_units(units[h:], prelude, limits, perms, dump, now, timeout, _depth + 1))
+            return (run_units(units[:h], prelude, limits, perms, dump, now, timeout, _depth + 1, reset_calls) +
+                    run_units(units[h:], prelude, limits, perms, dump, now, timeout, _depth + 1, reset_calls))
     replies = rep['replies']
     np_ = len(prelude)
     for i in range(np_):
@@ -454,9 +456,9 @@ def run_units(units, prelude=(), limits=None, perms=None, dump=None, now=None, t
     # a compiler panic may leave the scope inconsistent: cut the batch there
     for i, f in enumerate(feeds):
         if 'panic' in f['v']:
-            first = run_units(units[:i], prelude, limits, perms, dump, now, timeout, _depth + 1)
+            first = run_units(units[:i], prelude, limits, perms, dump, now, timeout, _depth + 1, reset_calls)
             mid = [Outcome(decode(f['v']), raw=job)]
-            rest = run_units(units[i + 1:], prelude, limits, perms, dump, now, timeout, _depth + 1)
+            rest = run_units(units[i + 1:], prelude, limits, perms, dump, now, timeout, _depth + 1, reset_calls)
             return first + mid + rest
     inst = replies[np_ + n]
     if 'ok' not in inst['v']:
@@ -466,10 +468,12 @@ def run_units(units, prelude=(), limits=None, perms=None, dump=None, now=None, t
                 return [Outcome(decode(feeds[0]['v']), raw=job)]
             return [Outcome(decode(inst['v']), inst['c'].get('out', ''), inst['c'], raw=job)]
         h = n // 2
-        return (run_units(units[:h], prelude, limits, perms, dump, now, timeout, _depth + 1) +
-                run_units(units[h:], prelude, limits, perms, dump, now, timeout, _depth + 1))
+        return (run_units(units[:h], prelude, limits, perms, dump, now, timeout, _depth + 1, reset_calls) +
+                run_units(units[h:], prelude, limits, perms, dump, now, timeout, _depth + 1, reset_calls))
     outs = []
-    ops = replies[np_ + n + 1: np_ + n + 1 + n]
+    ops = replies[np_ + n + 1: np_ + n + 1 + n * (2 if reset_calls else 1)]
+    if reset_calls:
+        ops = ops[1::2]
     for i in range(n):
         f = feeds[i]['v']
         if 'ok' not in f:
